@@ -256,6 +256,11 @@ func checkC03(c *Ctx) {
 	self := c.konst("server/store/types", "ModeCSelf")
 	r.Check(constAndIsZero(self, mw), "C03.6-const-modes", "ModeCSelf & ModeWrite == 0", c.P.Pos(self.Pos()), "self/search default access has no W", "ModeCSelf contains the write bit: me/fnd topics would accept publishes")
 	c.checkPauseBeforeStoreDelete()
+	// the read-only / paused flags the status guards test are updated without losing a concurrent update
+	c.checkAtomicRMW()
+	c.checkLoaderReadsLiveRows("C03.7-loader-reads-live-subscriptions")
+	// every changed mode is persisted (the write gate after a reload decides on the stored modes)
+	c.checkUpdateKeysIndependent()
 }
 
 // recordFromMapParam: base is (an alloc holding / an extract of) a lookup in map field `m` keyed
